@@ -167,14 +167,13 @@ Section Main.
     intros Hk. apply (parse_op_const _ _ _ Hp Hk).
   Qed.
 
-  (* CHECKPREDICATE: stacks and error class *)
-  Theorem step_checkpredicate_stacks : forall s i,
+  (* CHECKPREDICATE, gas included *)
+  Theorem step_checkpredicate : forall s i, child_nonneg rc ->
     parse_op (prog s) (pc s) = inr i -> i_op i = 192%N ->
-    (forall c, 0 <= runlimit (snd (rc c))) ->
-    256 + size_operand (top0 (dstack s)) <= runlimit s ->
-    stacks_of (outcome (step cr cx rc s)) = stacks_of (spec_instr cr cx rc i s).
+    enough_gas cr cx rc i s ->
+    outcome (step cr cx rc s) = spec_instr cr cx rc i s.
   Proof.
-    intros s i Hp Hop Hrc Hg. rewrite step_exec_instr, Hp. apply checkpredicate_stacks; assumption.
+    intros s i Hrc Hp Hop Hg. rewrite step_exec_instr, Hp. apply checkpredicate_ok; assumption.
   Qed.
 End Main.
 
@@ -189,6 +188,18 @@ Proof.
   - apply in_map_iff. exists (N.to_nat op). split; [lia|]. apply in_seq. lia.
   - apply N.eqb_eq in H. contradiction.
   - apply N.eqb_eq in He. subst. assumption.
+Qed.
+
+(* all 256 opcode bytes *)
+Theorem step_refines_spec_full : forall cr cx rc s i, sane s -> ctx_sane cx -> child_nonneg rc ->
+  parse_op (prog s) (pc s) = inr i -> (i_op i < 256)%N ->
+  enough_gas cr cx rc i s ->
+  outcome (step cr cx rc s) = spec_instr cr cx rc i s.
+Proof.
+  intros cr cx rc s i Hs Hc Hrc Hp Hlt Hg.
+  destruct (N.eq_dec (i_op i) 192) as [E|E].
+  - apply step_checkpredicate; assumption.
+  - apply step_refines_spec; try assumption. apply covered_all_but_192; assumption.
 Qed.
 
 (* hypotheses are satisfiable by a non-trivial state: ADD on (3, 4) with 100 gas *)
